@@ -4,7 +4,8 @@
 From Coq Require Import QArith Qcanon List Arith Bool Permutation.
 From Verif.lib Require Import Bsp NpCore NpQ NpF.
 From Verif.C02 Require Import Proofs.
-From Verif.C19 Require Import Model Proofs Proofs2 Proofs3 FloatProofs.
+From Verif.C02 Require Proofs_ref.
+From Verif.C19 Require Import Model Proofs Proofs2 Proofs3 Proofs4 Proofs5 FloatProofs.
 Import ListNotations.
 Open Scope Qc_scope.
 
@@ -55,13 +56,53 @@ Theorem make_knots_findspan : forall p a b n mult u, a < b -> (1 <= n)%nat -> (1
 Proof. exact make_knots_findspan_l. Qed.
 Print Assumptions make_knots_findspan.
 
+(* the boolean well-formedness predicate of lib/Bsp.v (non-decreasing, end knots p+1 times, first and
+   last span non-empty, interior multiplicity <= max p 1) holds whenever mult <= max p 1 *)
+Theorem make_knots_open_kv : forall p a b n mult, a < b -> (1 <= n)%nat -> (1 <= mult)%nat ->
+  (mult <= Nat.max p 1)%nat -> open_kv (make_knots p a b n mult) p = true.
+Proof. exact make_knots_open_kv_l. Qed.
+Print Assumptions make_knots_open_kv.
+
+(* hence C02's theorems hold on EVERY constructed knot vector, at every u in [a,b]: partition of unity,
+   non-negativity, locality (only functions s-p..s of the reported span are non-zero), the single-function
+   evaluator and the collocation row both equal the Cox-de Boor reference, derivatives of every order
+   >= 1 sum to zero *)
+Theorem make_knots_basis_properties : forall p a b n mult u,
+  a < b -> (1 <= n)%nat -> (1 <= mult)%nat -> (mult <= Nat.max p 1)%nat -> a <= u -> u <= b ->
+  let kv := make_knots p a b n mult in
+  open_kv kv p = true /\
+  Proofs_ref.sumf (fun i => Nref kv p i u) 0 (numdofs kv p) = 1 /\
+  (forall i, (i < numdofs kv p)%nat -> 0 <= Nref kv p i u) /\
+  (forall i, (i < numdofs kv p)%nat -> ~ (findspan kv p u - p <= i <= findspan kv p u)%nat -> Nref kv p i u = 0) /\
+  (forall i, (i < numdofs kv p)%nat ->
+     single_ev kv p i u = Nref kv p i u /\ nth i (colloc_row kv p 0 u) 0 = Nref kv p i u) /\
+  (forall k, (1 <= k)%nat -> Proofs_ref.sumf (fun i => dNref kv k p i u) 0 (numdofs kv p) = 0).
+Proof. exact make_knots_basis_properties_l. Qed.
+Print Assumptions make_knots_basis_properties.
+
 (* ---- the constructor in binary64 (bounded; computed, then lifted over p and mult) ---- *)
 
-(* for the 16 intervals of FloatProofs.grid, every n <= 2000, EVERY degree and EVERY interior
-   multiplicity: non-decreasing, the mesh is the list of n+1 strictly increasing break
-   points, p+1+mult(n-1)+p+1 knots, first knot a, last knot exactly b *)
-Theorem make_knots_float_bounded_2000 : forall a b n p mult,
-  In (a, b) grid -> (1 <= n <= 2000)%nat -> (1 <= mult)%nat ->
+(* for the 266 intervals [a,b] listed in the statement (a, b the doubles nearest to the given
+   rationals: f_of_q num/den is the correctly rounded quotient of two exact doubles, i.e. what the
+   decimal or rational literal denotes), every n <= 2000, EVERY degree and EVERY interior
+   multiplicity: non-decreasing, the mesh is the list of n+1 strictly increasing break points,
+   p+1+mult(n-1)+p+1 knots, first knot a, last knot exactly b.
+   pairs_of l = all (x, y) with x before y in l. *)
+Theorem make_knots_float_bounded_2000 : forall qa qb n p mult,
+  In (qa, qb)
+  (pairs_of [0; 1 # 10; 2 # 10; 3 # 10; 4 # 10; 5 # 10; 6 # 10; 7 # 10; 8 # 10; 9 # 10; 1]
+   ++ pairs_of [0; 1 # 4; 1 # 3; 1 # 2; 2 # 3; 3 # 4; 1]
+   ++ pairs_of [-2; -1; 0; 1; 2; 3; 5; 10]
+   ++ pairs_of [0; 1 # 7; 2 # 7; 3 # 7; 4 # 7; 5 # 7; 6 # 7; 1]
+   ++ pairs_of [-1; -1 # 2; 0; 1 # 4; 1 # 2; 3 # 4; 1; 3 # 2; 2]
+   ++ pairs_of [1; 11 # 10; 12 # 10; 13 # 10; 14 # 10; 15 # 10; 16 # 10; 17 # 10; 18 # 10; 19 # 10; 2]
+   ++ [(0, 1 # 1000000); (0, 1 # 100000); (0, 1 # 10000); (0, 1 # 1000); (0, 1 # 100); (0, 1 # 10); (0, 1); (0, 10); (0, 100); (0, 1000); (0, 10000); (0, 100000); (0, 1000000);
+      (1 # 1000000, 1 # 100000); (1 # 100000, 1 # 10000); (1 # 10000, 1 # 1000); (1 # 1000, 1 # 100); (1 # 100, 1 # 10); (1 # 10, 1); (1, 10); (10, 100); (100, 1000); (1000, 10000); (10000, 100000); (100000, 1000000)]
+   ++ [(-1 # 2, 1 # 4); (1 # 1000, 1000); (100, 1001 # 10); (-37 # 10, 129 # 10); (1234567 # 10, 6543219 # 10); (-1000000, 1000000);
+      (0, 7); (-5 # 2, 5 # 2); (10, 11); (-1 # 10, 1 # 10); (11 # 2, 28 # 5); (0, 6283185307179586 # 1000000000000000);
+      (1000, 1001); (-1 # 1000000, 1 # 1000000); (7 # 10, 19 # 10); (-73 # 10, -11 # 10); (1 # 20, 19 # 20); (0, 3)])%Q ->
+  (1 <= n <= 2000)%nat -> (1 <= mult)%nat ->
+  let a := f_of_q qa in let b := f_of_q qb in
   let kv := make_knots_f p a b n mult in
   sorted_f kv = true /\ mesh_f kv = bp_f a b n /\ length (mesh_f kv) = (n + 1)%nat /\
   strict_f (mesh_f kv) = true /\
@@ -135,6 +176,37 @@ Theorem greville_in_domain : forall kv p x, (1 <= p)%nat -> kn kv 0 <= kn kv (le
 Proof. exact greville_in_domain_l. Qed.
 Print Assumptions greville_in_domain.
 
+(* Schoenberg-Whitney position of the Greville points of an open knot vector, p >= 1: the first and the
+   last are the end points of the domain; every other one lies STRICTLY inside the support
+   (kv[i], kv[i+p+1]) of its B-spline (the part of unisolvence C17 uses).
+   NOT PROVED: that this position makes the Greville collocation matrix non-singular
+   (Schoenberg-Whitney theorem / total positivity), hence the name. *)
+Theorem greville_unisolvent_partial : forall kv p, (1 <= p)%nat -> open_kv kv p = true ->
+  nth 0 (greville kv p) 0 = kn kv 0 /\
+  nth (numdofs kv p - 1) (greville kv p) 0 = kn kv (length kv - 1) /\
+  forall i, (1 <= i)%nat -> (i + 1 < numdofs kv p)%nat ->
+    kn kv i < nth i (greville kv p) 0 /\ nth i (greville kv p) 0 < kn kv (i + p + 1).
+Proof. exact greville_schoenberg_whitney_l. Qed.
+Print Assumptions greville_unisolvent_partial.
+
+(* for any non-decreasing knot vector, without the open_kv hypothesis: strict whenever the support
+   is not degenerate on that side *)
+Theorem greville_strict_support : forall kv p i, (1 <= p)%nat -> sorted_idx kv -> (i + p + 1 < length kv)%nat ->
+  let g := nth i (sl_range p p (np_convolve kv (avg_weights p))) 0 in
+  (kn kv i < kn kv (i + p) -> kn kv i < g) /\ (kn kv (i + 1) < kn kv (i + p + 1) -> g < kn kv (i + p + 1)).
+Proof. exact running_average_strict. Qed.
+Print Assumptions greville_strict_support.
+
+(* degree 0: numdofs cell midpoints (kv[i+1]+kv[i])/2, inside [kv[i], kv[i+1]] = the support of
+   function i, strictly inside when the cell is non-empty *)
+Theorem greville_p0 : forall kv i, kv_valid kv = true -> (i < numdofs kv 0)%nat ->
+  length (greville kv 0) = numdofs kv 0 /\
+  nth i (greville kv 0) 0 = (kn kv (S i) + kn kv i) / two /\
+  kn kv i <= nth i (greville kv 0) 0 /\ nth i (greville kv 0) 0 <= kn kv (i + 0 + 1) /\
+  (kn kv i < kn kv (S i) -> kn kv i < nth i (greville kv 0) 0 /\ nth i (greville kv 0) 0 < kn kv (S i)).
+Proof. exact greville_p0_l. Qed.
+Print Assumptions greville_p0.
+
 (* ---- refinement ---- *)
 
 Theorem refine_sorted_union : forall kv new_knots,
@@ -179,10 +251,9 @@ Proof. exact derivative_spline_l. Qed.
 Print Assumptions derivative_spline.
 
 (* NOT PROVED (covered by the correspondence run only):
-   - open_kv (make_knots p a b n mult) p = true, the boolean well-formedness predicate of
-     lib/Bsp.v that also bounds interior multiplicities by p: proved are the parts findspan needs
-     (make_knots_open : kv_ok) and the closed form of every knot (make_knots_mult), from which the
-     multiplicity bound follows for mult <= p; the forallb-form was not assembled.
-   - greville for p = 0 (cell midpoints): only the tie checks it.
+   - non-singularity of the Greville collocation matrix (Schoenberg-Whitney theorem); proved is the
+     position of the points (greville_unisolvent_partial).
    - np.allclose-style comparisons are modelled over exact rationals; the binary64 evaluation of
-     __eq__ is compared on inputs away from the tolerance threshold and scanned for asymmetry. *)
+     __eq__ is compared on inputs away from the tolerance threshold and scanned for asymmetry.
+   - the binary64 constructor outside the 266 listed intervals / n > 2000 (bit-exact tie on random
+     intervals only). *)
